@@ -145,7 +145,10 @@ func TestC05(t *testing.T) {
 	rec := NewRec("C05", c05Rule)
 	defer rec.Finish(t)
 	rec.EnableJournal()
-	rec.RequireClass("outage_longer_than_9s", "refused_by_http503", "refused_redials", "long_outage", "double_fault", "no_reconnect", "with_errors", "has_retry", "backoff_pure")
+	rec.RequireClass("refused_redials", "double_fault", "no_reconnect", "with_errors", "has_retry", "backoff_pure")
+	if sh0, _ := shard(); sh0 == 0 {
+		rec.RequireClass("outage_longer_than_9s", "refused_by_http503", "long_outage") // grid cases of the first shard
+	}
 
 	run := func(ft failer, c fsCase) {
 		nt, cl := c05NT(c)
